@@ -13,6 +13,13 @@ import DFV.Lemmas.C19Angle
 import DFV.Lemmas.C19BLReal
 import DFV.Lemmas.C19Cuboid
 import DFV.Lemmas.C19ConvThm
+import DFV.Lemmas.C19IntegReal
+import DFV.Lemmas.C19QuarterBc
+import DFV.Lemmas.C19Parity
+import DFV.Lemmas.C19Iff
+import DFV.Lemmas.C19Aff
+import DFV.Lemmas.C19Slice
+import DFV.Lemmas.C19SumReal
 /-!
 # C19 — topological and demagnetisation tools obey their physical invariances
 
@@ -22,14 +29,17 @@ leaf functions (`sq` = square root, `Om` = Berg–Lüscher angle, `acos`, `asinh
 Newell functions) are universally quantified; what a theorem needs of a leaf function is an
 explicit hypothesis, instantiated for the real functions in `Lemmas/C19Real.lean`.
 
-Level "proof, partial": Berg–Lüscher integrality and the hedgehog count are NOT proved here
-(correspondence oracle only).  Proved in addition to the invariances: the quarter turn of the sample
-(`charge_quarter_turn`, tied to C12's `Field.rotate90` model by `charge_rotate90`), the trace in
-Fourier space through C11's transform model (`demag_trace_fourier`), the convolution theorem and the
-code-shaped `demag_field` (`convolution_theorem`, `demag_field_fft_is_convolution`), the reversal law of
-`count_bps` (`count_bps_reversal`), the sum rule through `demag_field` and the Newell tensor
-(`demag_field_cuboid_sum`, `demag_field_cube_third`), and the lattice density with the real
-solid-angle formula (`bl_real_invariances`).
+Level "proof, partial": the hedgehog count is NOT proved here (correspondence oracle only); Berg–Lüscher integrality
+is proved for closed sheets of exact unit vectors with the real solid-angle formula (`bl_charge_half_integer`: `2Q ∈ ℤ`,
+`bl_charge_integer`: `Q ∈ ℤ` on smooth sheets; the exact hypothesis on an abstract leaf: `bl_charge_coboundary`).
+Proved in addition to the invariances: the quarter turn of the sample (`charge_quarter_turn`, tied to C12's
+`Field.rotate90` model by `charge_rotate90` and, for periodic meshes, `charge_rotate90_periodic`), the trace in Fourier
+space through C11's transform model (`demag_trace_fourier`), the convolution theorem and the code-shaped `demag_field`
+(`convolution_theorem`, `demag_field_fft_is_convolution`), the reversal law and the mesh / length invariances of
+`count_bps`, the sum rule through `demag_field` and the Newell tensor (`demag_field_cuboid_sum`, `demag_field_cube_third`;
+real leaves: `cuboid_sum_rule_real`, `cube_third_rule_real`), the parities of the tensor (`demag_tensor_parity`),
+acceptance of every tool as an equivalence (`tcd_ok_iff`, …), and the lattice density with the real solid-angle formula
+(`bl_real_invariances`).
 -/
 namespace DFV.C19
 open DFV
@@ -1369,5 +1379,386 @@ theorem demag_refusals (pi : Rat) (T : NDA (List Rat)) (f : Fld) :
             · exact absurd hc b
             · exact absurd hc c
             · exact absurd hc d
+
+/-! ## Accepted ⇔ well-formed, tool by tool -/
+
+/-- `topological_charge_density` and `topological_charge` (absolute or not) accept a field IF AND ONLY IF it has
+three components, lives on a 2-d mesh and the method is one of the two known ones — nothing else about the field
+(mask, boundary conditions, zero vectors, labels) can make either method refuse; both methods refuse exactly the
+same fields. -/
+theorem tcd_ok_iff (sq : Rat → Rat) (pi : Rat) (Om : Tri → Rat) (f : Fld) (m : Method) (a : Bool) :
+    ((∃ q, tcd sq pi Om f m = .ok q) ↔ (f.nvdim = 3 ∧ f.mesh.ndim = 2 ∧ m ≠ .other)) ∧
+    ((∃ c, charge sq pi Om f m a = .ok c) ↔ (f.nvdim = 3 ∧ f.mesh.ndim = 2 ∧ m ≠ .other)) ∧
+    ((∃ q, tcd sq pi Om f .continuous = .ok q) ↔ (∃ q, tcd sq pi Om f .bergLuescher = .ok q)) := by
+  refine ⟨tcd_ok_iff' sq pi Om f m, charge_ok_iff' sq pi Om f m a, ?_⟩
+  rw [tcd_ok_iff', tcd_ok_iff']
+  simp
+
+/-- `emergent_magnetic_field` accepts exactly the three-component fields on 3-d meshes; `count_bps` exactly those
+of them whose named direction exists and has at least two cells (the cumulative integral along a single cell is
+refused by `Field.integrate(cumulative=True)`'s result being a single number). -/
+theorem emergent_count_ok_iff (sq : Rat → Rat) (pi : Rat) (f : Fld) (dir : String) :
+    ((∃ e, emergent f = .ok e) ↔ (f.nvdim = 3 ∧ f.mesh.ndim = 3)) ∧
+    ((∃ r, countBps sq pi f dir = .ok r) ↔
+      (f.mesh.ndim = 3 ∧ f.nvdim = 3 ∧ ∃ ax, indexOf? f.mesh.region.dims dir = some ax ∧ 2 ≤ f.mesh.nAt ax)) :=
+  ⟨emergent_ok_iff' f, countBps_ok_iff' sq pi f dir⟩
+
+/-- `neighbouring_cell_angle` on a well-formed mesh (any number of dimensions) accepts exactly: three components,
+units `rad` or `deg`, an existing direction with at least two cells. -/
+theorem angle_ok_iff (sq acos deg : Rat → Rat) (f : Fld) (dir units : String) (hm : f.mesh.Inv) :
+    (∃ g, neighbourAngle sq acos deg f dir units = .ok g) ↔
+      (f.nvdim = 3 ∧ (units = "rad" ∨ units = "deg") ∧
+        ∃ ax, indexOf? f.mesh.region.dims dir = some ax ∧ 2 ≤ f.mesh.nAt ax) :=
+  angle_ok_iff' sq acos deg f dir units hm
+
+/-- both tensor builders accept a well-formed mesh iff it is 3-d; `demag_field` accepts iff the magnetisation has
+three components on a 3-d mesh with axes `x, y, z` and the tensor has the shape of the `2n−1` grid. -/
+theorem demag_ok_iff (pi : Rat) (T : NDA (List Rat)) (f : Fld) (m : Mesh) (hm : m.Inv) (fb : Bool) :
+    ((∃ r, demagTensor fb pi m = .ok r) ↔ m.ndim = 3) ∧
+    ((∃ g, demagField T f = .ok g) ↔
+      (f.mesh.ndim = 3 ∧ f.nvdim = 3 ∧ f.mesh.region.dims = ["x", "y", "z"] ∧
+        T.shape = [2 * f.mesh.nAt 0 - 1, 2 * f.mesh.nAt 1 - 1, 2 * f.mesh.nAt 2 - 1])) :=
+  ⟨demagTensor_ok_iff' fb pi m hm, demagField_ok_iff' T f⟩
+
+/-! ## Reversal without hypotheses on intermediate results -/
+
+/-- REVERSAL, TOTAL FORM: for every field (accepted or not), method and leaf that is odd in the triple product,
+`topological_charge` of the reversed field is the negated charge — or the same refusal — and the absolute charge is
+literally the same result. -/
+theorem charge_reversal_total (sq : Rat → Rat) (pi : Rat) (Om : Tri → Rat)
+    (hOm : ∀ tr, tr.t ≠ 0 → Om (flipT tr) = -Om tr) (f : Fld) (m : Method) :
+    charge sq pi Om (negF f) m false = (charge sq pi Om f m false).map (fun c => -c) ∧
+    charge sq pi Om (negF f) m true = charge sq pi Om f m true := by
+  by_cases hacc : f.nvdim = 3 ∧ f.mesh.ndim = 2 ∧ m ≠ .other
+  · obtain ⟨c, hc⟩ := (charge_ok_iff' sq pi Om f m false).mpr hacc
+    obtain ⟨ca, hca⟩ := (charge_ok_iff' sq pi Om f m true).mpr hacc
+    obtain ⟨r1, r2⟩ := charge_reversal sq pi Om hOm f m c ca hc hca
+    rw [r1, r2, hc, hca]
+    exact ⟨rfl, rfl⟩
+  · have e : ∀ a, (∃ e, charge sq pi Om f m a = .error e ∧ charge sq pi Om (negF f) m a = .error e) := by
+      intro a
+      unfold charge
+      have hn : (negF f).nvdim = f.nvdim := rfl
+      have hd : (negF f).mesh = f.mesh := rfl
+      rw [hn, hd]
+      by_cases h3 : f.nvdim ≠ 3
+      · rw [if_pos h3, if_pos h3]; exact ⟨_, rfl, rfl⟩
+      · rw [if_neg h3, if_neg h3]
+        by_cases h2 : f.mesh.ndim ≠ 2
+        · rw [if_pos h2, if_pos h2]; exact ⟨_, rfl, rfl⟩
+        · rw [if_neg h2, if_neg h2]
+          have hm : m = .other := by
+            by_contra hm
+            exact hacc ⟨not_not.mp h3, not_not.mp h2, hm⟩
+          subst hm
+          exact ⟨_, rfl, rfl⟩
+    obtain ⟨e1, a1, b1⟩ := e false
+    obtain ⟨e2, a2, b2⟩ := e true
+    rw [a1, b1, a2, b2]
+    exact ⟨rfl, rfl⟩
+
+/-! ## The cuboid sum rule with the real tensor -/
+
+/-- THE SUM RULE WITH THE REAL NEWELL TENSOR (no hypothesis on a leaf).  `demagUniformR pi m M a q` is component `a`
+at cell `q` of the linear convolution — what `demag_field` computes, `demag_field_fft_is_convolution` — of the
+model's tensor of `demag_tensor(mesh)`, evaluated with the real `arcsinh`, `arctan`, `sqrt`, with the uniform
+magnetisation `M e_a`.  At EVERY cell of EVERY well-formed 3-d mesh (all aspect ratios, all cell edges) the three
+components along the respective magnetisation add up to `−M·π/pi` (`pi` the rational the code uses for `np.pi`:
+`−M` up to its rounding); hence so do the three mean demagnetising field components. -/
+theorem cuboid_sum_rule_real (pi : Rat) (hpi : pi ≠ 0) (m : Mesh) (hm : m.Inv) (h3 : m.ndim = 3) (M : ℝ) (q0 q1 q2 : Nat)
+    (h0 : q0 < m.nAt 0) (h1 : q1 < m.nAt 1) (h2 : q2 < m.nAt 2) :
+    demagUniformR pi m M 0 q0 q1 q2 + demagUniformR pi m M 1 q0 q1 q2 + demagUniformR pi m M 2 q0 q1 q2
+      = -M * (Real.pi / (pi : ℝ)) :=
+  cuboid_sum_real pi hpi m hm h3 M q0 q1 q2 h0 h1 h2
+
+/-- −M/3 EACH FOR A CUBE, WITH THE REAL TENSOR: for a well-formed mesh with equal counts `n` and equal cell edges the
+real tensor has the cyclic symmetry `N_yy(j₀,j₁,j₂) = N_xx(j₁,j₂,j₀)`, `N_zz(j₀,j₁,j₂) = N_xx(j₂,j₀,j₁)`, and each of the
+three demagnetising field components along the magnetisation, summed over all `n³` cells, is `−M·(π/pi)·n³/3`:
+mean `−M/3` each (up to the rounding of `np.pi`). -/
+theorem cube_third_rule_real (pi : Rat) (hpi : pi ≠ 0) (m : Mesh) (hm : m.Inv) (h3 : m.ndim = 3) (M : ℝ) (n : Nat)
+    (hn0 : m.nAt 0 = n) (hn1 : m.nAt 1 = n) (hn2 : m.nAt 2 = n)
+    (hc1 : m.cellAt 1 = m.cellAt 0) (hc2 : m.cellAt 2 = m.cellAt 0) (a : Nat) (ha : a < 3) :
+    ∑ q0 ∈ Finset.range n, ∑ q1 ∈ Finset.range n, ∑ q2 ∈ Finset.range n, demagUniformR pi m M a q0 q1 q2
+      = -M * (Real.pi / (pi : ℝ)) * (n : ℝ) ^ 3 / 3 :=
+  cube_third_real pi hpi m hm h3 M n hn0 hn1 hn2 hc1 hc2 a ha
+
+/-- the real-space trace of the real tensor, cell by cell of the displacement grid (real-valued form of `demag_trace_grid`) -/
+theorem demag_trace_grid_real (pi : Rat) (hpi : pi ≠ 0) (m : Mesh) (hm : m.Inv) (h3 : m.ndim = 3) (i0 i1 i2 : Nat)
+    (b0 : i0 < 2 * m.nAt 0 - 1) (b1 : i1 < 2 * m.nAt 1 - 1) (b2 : i2 < 2 * m.nAt 2 - 1) :
+    tensorR pi m [i0, i1, i2] 0 + tensorR pi m [i0, i1, i2] 1 + tensorR pi m [i0, i1, i2] 2
+      = if i0 = m.nAt 0 - 1 ∧ i1 = m.nAt 1 - 1 ∧ i2 = m.nAt 2 - 1 then -(Real.pi / (pi : ℝ)) else 0 :=
+  tensorR_trace pi hpi m hm h3 i0 i1 i2 b0 b1 b2
+
+/-! ## 2-d slices of 3-d fields -/
+
+/-- "THE FIELD MUST BE SLICED USING `Field.sel`".  A three-component field on a 3-d mesh (constructor state, no
+subregions) is refused by both density methods; every plane selection `field.sel(dim = x)` with `x` on the closed
+edge is accepted by `Field.sel` (C07's model) and then by both methods; the density lives on the mesh with the
+axis removed, with the validity of the slice, and the slice holds in cell `j` the vector and the validity of the
+source cell `insertAt j a k`, `k = indexAx a x` the layer containing `x` — so the density of the slice is the
+density of that layer of the 3-d field. -/
+theorem tcd_plane_selection (sq : Rat → Rat) (pi : Rat) (Om : Tri → Rat) (f : Fld) (hf : C07.FldWF f) (hmi : C07.MetaInv f)
+    (hs : f.mesh.subs = []) (h3d : f.mesh.ndim = 3) (hnv : f.nvdim = 3) (dim : String) (a : Nat)
+    (hd : f.mesh.region.dim2index dim = .ok a) (x : Rat) (h1 : f.mesh.region.lo a ≤ x) (h2 : x ≤ f.mesh.region.hi a)
+    (m : Method) (hm : m ≠ .other) :
+    (∃ e, tcd sq pi Om f m = .error e) ∧
+    ∃ g q, C07.selFld f dim (.point x) = .ok (.field g) ∧ tcd sq pi Om g m = .ok q ∧
+      q.mesh = C07.planeOf f.mesh a ∧ q.mesh.ndim = 2 ∧ q.valid = g.valid ∧
+      ∀ j, inRange g.mesh.n j = true →
+        cellV g j = cellV f (C07.insertAt j a (f.mesh.indexAx a x)) ∧
+        g.valid.get j = f.valid.get (C07.insertAt j a (f.mesh.indexAx a x)) :=
+  tcd_of_plane_selection sq pi Om f hf hmi hs h3d hnv dim a hd x h1 h2 m hm
+
+/-- the hypotheses on the 3-d field `f3` (2 × 1 × 2 cells): the plane `z = 3/4` -/
+example : C07.FldWF f3 ∧ C07.MetaInv f3 ∧ f3.mesh.subs = [] ∧ f3.mesh.ndim = 3 ∧ f3.nvdim = 3 ∧
+    f3.mesh.region.dim2index "z" = .ok 2 ∧ f3.mesh.region.lo 2 ≤ (3 : Rat) / 4 ∧ (3 : Rat) / 4 ≤ f3.mesh.region.hi 2 :=
+  ⟨⟨mesh_inv_of_invB _ (by decide +kernel), rfl, rfl⟩, by unfold C07.MetaInv; rfl, rfl, rfl, rfl, by decide +kernel,
+    by decide +kernel, by decide +kernel⟩
+
+/-! ## Emergent field and Bloch-point count under rescaling of the mesh and of the vectors -/
+
+/-- `emergent_magnetic_field` under translation and scaling of the mesh by `λ`: accepted alike, the result lives on
+the translated and scaled mesh with the same validity and holds `F/λ²` (two derivatives); and multiplying every
+vector by `s` multiplies it by `s³` (the tool does not normalise) — every mask, periodic or open directions. -/
+theorem emergent_scaling (lam s : Rat) (t : List Rat) (f e : Fld) (h : emergent f = .ok e) :
+    (∃ e', emergent (affF lam t f) = .ok e' ∧ e'.mesh = affMesh lam t e.mesh ∧ e'.valid = e.valid ∧
+      e'.data.shape = e.data.shape ∧ e'.nvdim = 3 ∧
+      ∀ i c, c < 3 → (e'.data.get i).getD c 0 = (e.data.get i).getD c 0 / (lam * lam)) ∧
+    (∃ e', emergent (scaleF (fun _ => s) f) = .ok e' ∧ e'.mesh = e.mesh ∧ e'.valid = e.valid ∧
+      e'.data.shape = e.data.shape ∧
+      ∀ i c, c < 3 → (e'.data.get i).getD c 0 = s * s * s * (e.data.get i).getD c 0) :=
+  ⟨emergent_affF lam t f e h, emergent_scale s f e h⟩
+
+/-- `count_bps` IS UNCHANGED BY TRANSLATING AND RESCALING THE MESH by any `λ ≠ 0`: the emergent field of the
+orientation field scales by `1/λ²`, its divergence by `1/λ³`, the two plane integrals by `λ²`, the cumulative
+integral by `λ` — the cumulative flux, the local numbers, both counts and the pattern are literally the same, and
+so is a refusal.  Every direction, every mask, anisotropic cells. -/
+theorem count_bps_mesh_invariant (sq : Rat → Rat) (pi : Rat) (lam : Rat) (hl : lam ≠ 0) (t : List Rat) (f : Fld) (dir : String)
+    (hdl : f.mesh.region.dims.length = f.mesh.ndim) :
+    countBps sq pi (affF lam t f) dir = countBps sq pi f dir :=
+  countBps_affF sq pi lam hl t f dir hdl
+
+/-- `count_bps` IS UNCHANGED BY RESCALING THE VECTOR LENGTHS cell by cell (hypotheses as in `orientation_scale`):
+it only looks at the orientation field. -/
+theorem count_bps_scale_invariant (sq : Rat → Rat) (pi : Rat) (s : List Nat → Rat) (f : Fld) (dir : String)
+    (hs : ∀ i, s i ≠ 0)
+    (hsq : ∀ i, sq (s i * s i * (cellV f i).normSq) = s i * sq (cellV f i).normSq)
+    (hz : ∀ i, isZeroNorm (s i * sq (cellV f i).normSq) = isZeroNorm (sq (cellV f i).normSq)) :
+    countBps sq pi (scaleF s f) dir = countBps sq pi f dir :=
+  countBps_scaleF sq pi s f dir fun i => orient_smul sq (s i) _ (hs i) (hsq i) (hz i)
+
+/-- the hypotheses on the concrete 3-d field `f3` (2 × 1 × 2 cells, edges 1, 2, 1/2): well-formed names, accepted along `x` -/
+example : f3.mesh.region.dims.length = f3.mesh.ndim ∧ (2 : Rat) ≠ 0 ∧
+    (match countBps ratSqrt 3 (affF 2 [1, 0, -1] f3) "x" with | .ok _ => true | .error _ => false) = true :=
+  ⟨rfl, by norm_num, by decide +kernel⟩
+
+/-! ## Arithmetic of the Bloch-point count -/
+
+/-- `bp_number_hh + bp_number_tt = bp_number`; `bp_number_tt − bp_number_hh` is the local Bloch-point number
+(rounded cumulative flux) at the last cell minus the one at the first — the differences telescope; both counts
+are non-negative, there is one local number per cell along the direction, and the run-length pattern
+`bp_pattern` decodes to exactly that list.  Any cumulative flux, any `pi`. -/
+theorem count_bps_arithmetic (fint : List Rat) (pi : Rat) :
+    (bpOf fint pi).hh + (bpOf fint pi).tt = (bpOf fint pi).total ∧
+    (bpOf fint pi).tt - (bpOf fint pi).hh
+      = (bpOf fint pi).number.getD ((bpOf fint pi).number.length - 1) 0 - (bpOf fint pi).number.getD 0 0 ∧
+    0 ≤ (bpOf fint pi).hh ∧ 0 ≤ (bpOf fint pi).tt ∧ (bpOf fint pi).number.length = fint.length ∧
+    (bpOf fint pi).pattern.flatMap (fun p => List.replicate p.2 p.1) = (bpOf fint pi).number :=
+  ⟨(bpOf_arith fint pi).1, (bpOf_arith fint pi).2.1, (bpOf_arith fint pi).2.2.1, (bpOf_arith fint pi).2.2.2.1,
+    (bpOf_arith fint pi).2.2.2.2, rle_decode _⟩
+
+/-- a flux with one step up and one step down: one tail-to-tail and one head-to-head Bloch point, pattern `0,1,1,0` -/
+example : (bpOf [0, 4, 4, 0] 1).tt = 1 ∧ (bpOf [0, 4, 4, 0] 1).hh = 1 ∧ (bpOf [0, 4, 4, 0] 1).total = 2 ∧
+    (bpOf [0, 4, 4, 0] 1).pattern = [(0, 1), (1, 2), (0, 1)] := by decide +kernel
+
+/-! ## Symmetry and parities of the demagnetisation tensor -/
+
+/-- `N_ab = N_ba`: the tensor is stored by its six components `xx, yy, zz, xy, xz, yz`, and `demag_field` reads
+component `(a, b)` and `(b, a)` from the same slot (`tensor.ft_xy * m_fft.ft_x` in `hy`, `tensor.ft_xy * m_fft.ft_y` in `hx`). -/
+theorem demag_tensor_symmetric (a b : Nat) (ha : a < 3) (hb : b < 3) : symIdx a b = symIdx b a ∧ symIdx a b < 6 := by
+  have h1 : a = 0 ∨ a = 1 ∨ a = 2 := by omega
+  have h2 : b = 0 ∨ b = 1 ∨ b = 2 := by omega
+  rcases h1 with rfl | rfl | rfl <;> rcases h2 with rfl | rfl | rfl <;> decide
+
+/-- PARITIES OF THE NEWELL TENSOR: `N_ab(…, −r_e, …) = (−1)^{δ_ae + δ_be} N_ab(…, r_e, …)`.  For every displacement,
+all cell edges and every evaluation of the leaves in which `arcsinh` and `arctan` are odd (`OddLeaves`), reflecting
+coordinate `e` multiplies component `c` of `_N` (symbolic Newell functions, 64-point stencil, normalisation) by
+`paritySign e c`: `+1` for the diagonal components, `−1` for an off-diagonal component that carries the index `e`,
+`+1` for the one that does not. -/
+theorem demag_tensor_parity {K : Type} [Field K] [CharZero K] (lv : Leaf → K) (h : OddLeaves lv)
+    (pi c0 c1 c2 x y z : Rat) (e c : Nat) (he : e < 3) (hc : c < 6) :
+    evalK lv ((nAll pi c0 c1 c2 (reflectAt e x y z).1 (reflectAt e x y z).2.1 (reflectAt e x y z).2.2).getD c [])
+      = ((paritySign e c : Int) : K) * evalK lv ((nAll pi c0 c1 c2 x y z).getD c []) :=
+  nAll_parity lv h pi c0 c1 c2 x y z e c he hc
+
+/-- … ON THE GRID OF `demag_tensor(mesh)`, WITH THE REAL LEAVES: reflecting index `e` of a cell of the `2n−1`
+displacement grid about the central cell (`j_e ↦ 2n_e − 2 − j_e`) multiplies component `c` of the tensor, evaluated
+with the real `arcsinh`, `arctan`, `sqrt`, by `paritySign e c` — every well-formed 3-d mesh, every cell. -/
+theorem demag_tensor_grid_parity (pi : Rat) (m : Mesh) (hm : m.Inv) (h3 : m.ndim = 3)
+    (j0 j1 j2 : Nat) (h0 : j0 < 2 * m.nAt 0 - 1) (h1 : j1 < 2 * m.nAt 1 - 1) (h2 : j2 < 2 * m.nAt 2 - 1)
+    (e c : Nat) (he : e < 3) (hc : c < 6) :
+    evalK lvR ((tensorArr pi m (reflectIdx m e [j0, j1, j2])).getD c [])
+      = ((paritySign e c : Int) : ℝ) * evalK lvR ((tensorArr pi m [j0, j1, j2]).getD c []) :=
+  tensorArr_parity lvR lvR_odd pi m hm h3 j0 j1 j2 h0 h1 h2 e c he hc
+
+/-- … and with any odd rational leaf functions (the model's `evalTerms`) -/
+theorem demag_tensor_grid_parity_rat (asinh atan sqrt : Rat → Rat) (ho1 : ∀ x, asinh (-x) = -asinh x)
+    (ho2 : ∀ x, atan (-x) = -atan x) (pi : Rat) (m : Mesh) (hm : m.Inv) (h3 : m.ndim = 3)
+    (j0 j1 j2 : Nat) (h0 : j0 < 2 * m.nAt 0 - 1) (h1 : j1 < 2 * m.nAt 1 - 1) (h2 : j2 < 2 * m.nAt 2 - 1)
+    (e c : Nat) (he : e < 3) (hc : c < 6) :
+    evalTerms asinh atan sqrt ((tensorArr pi m (reflectIdx m e [j0, j1, j2])).getD c [])
+      = (paritySign e c : Rat) * evalTerms asinh atan sqrt ((tensorArr pi m [j0, j1, j2]).getD c []) := by
+  have := tensorArr_parity (K := Rat) (evalLeaf asinh atan sqrt) (evalLeaf_odd asinh atan sqrt ho1 ho2) pi m hm h3
+    j0 j1 j2 h0 h1 h2 e c he hc
+  rw [evalK_rat, evalK_rat] at this
+  exact this
+
+/-- odd rational leaf functions exist (the identity), and the signs: `N_xy` is odd in `x`, even in `z` -/
+example : (∀ x : Rat, id (-x) = -id x) ∧ paritySign 0 3 = -1 ∧ paritySign 2 3 = 1 ∧ paritySign 1 0 = 1 ∧
+    reflectIdx m3 0 [0, 0, 1] = [2, 0, 1] := ⟨fun _ => rfl, rfl, rfl, rfl, by decide⟩
+
+/-! ## Quarter turn of a sample with periodic boundary conditions -/
+
+/-- THE PERIODIC DIRECTIONS TURN WITH THE MESH.  After `Mesh.rotate90(a1, a2, k)` with odd `k` in the plane of the two
+axes of a 2-d mesh (either order) — `bc` rewritten by the exchange of the two single lower-case axis names
+(repo fix be43fa9b) and lower-cased by the constructor — axis 0 of the result is periodic for `Field.diff` iff
+axis 1 of the original is, and vice versa, provided the `bc` is what the `bc` setter guarantees (lower case,
+accepted) and the plane can turn: both names single lower-case characters, or both axes periodic alike
+(`C05.BcTurns`; otherwise the library leaves `bc` with the name, open finding D57). -/
+theorem periodic_flags_turn (f g : Fld) (a1 a2 : String) (k : Int) (i1 i2 : Nat)
+    (hd : f.mesh.region.dims.length = f.mesh.ndim) (hdup : hasDup f.mesh.region.dims = false) (h2 : f.mesh.ndim = 2)
+    (hbl : f.mesh.bc.toLower = f.mesh.bc) (hbok : Mesh.bcOk f.mesh.region.dims f.mesh.bc = true)
+    (hi1 : f.mesh.region.dim2index a1 = .ok i1) (hi2 : f.mesh.region.dim2index a2 = .ok i2)
+    (hord : (i1 = 0 ∧ i2 = 1) ∨ (i1 = 1 ∧ i2 = 0)) (hk : k % 2 = 1) (ht : C05.BcTurns f 0 1)
+    (hdims : g.mesh.region.dims = f.mesh.region.dims) (hbc : g.mesh.bc = (T.rotBc f.mesh.bc a1 a2 k).toLower) :
+    periodic g 0 = periodic f 1 ∧ periodic g 1 = periodic f 0 :=
+  periodic_after_turn f g a1 a2 k i1 i2 hd hdup h2 hbl hbok hi1 hi2 hord hk ht hdims hbc
+
+/-- EVERY QUARTER TURN OF THE SAMPLE, ANY BOUNDARY CONDITIONS.  `charge_rotate90` without the restriction to open
+boundaries: `Field.rotate90` (C12's model `T.rotate90F`) by any odd `k` in the plane of the two axes — named in
+either order — of a 2-d three-component field on a mesh with ANY `bc` the setter accepts (periodic along one or
+both axes, `neumann`, `dirichlet`, open), whose plane can turn (`C05.BcTurns`), leaves the topological charge
+unchanged: both methods (the continuous one differentiates across the periodic seam), absolute or not, every
+validity mask, anisotropic cells, any reference point, copying or in-place form. -/
+theorem charge_rotate90_periodic (sq : Rat → Rat) (pi : Rat) (Om : Tri → Rat) (f recv g : Fld) (a1 a2 : String) (k : Int)
+    (ref : Option (List Rat)) (b : Bool)
+    (hf : T.FldInv f) (h2 : f.mesh.ndim = 2) (h3 : f.nvdim = 3) (hlen : ∀ i, (f.data.get i).length = 3)
+    (hbl : f.mesh.bc.toLower = f.mesh.bc) (hbok : Mesh.bcOk f.mesh.region.dims f.mesh.bc = true)
+    (ht : C05.BcTurns f 0 1) (i1 i2 : Nat)
+    (hi1 : f.mesh.region.dim2index a1 = .ok i1) (hi2 : f.mesh.region.dim2index a2 = .ok i2)
+    (hord : (i1 = 0 ∧ i2 = 1) ∨ (i1 = 1 ∧ i2 = 0)) (hk : k % 2 = 1)
+    (hvd : ∀ vs, f.vdims = some vs → vs.length = 3)
+    (hc : (f.rDim a1).bind f.vdimIndex ≠ (f.rDim a2).bind f.vdimIndex)
+    (h : T.rotate90F f a1 a2 k ref b = .ok (recv, g)) (m : Method) (a : Bool) :
+    charge sq pi Om g m a = charge sq pi Om f m a := by
+  obtain ⟨g3, g2, gs, hcase⟩ := rotate90F_quarter_bc f recv g a1 a2 k ref b hf h2 h3 hlen hbl hbok ht i1 i2 hi1 hi2 hord hk hvd hc h
+  have hfs : f.data.shape = [f.mesh.nAt 0, f.mesh.nAt 1] := by rw [hf.2.1]; exact n_eq2 f.mesh hf.1 h2
+  rcases hcase with ⟨Q, hQ, hT⟩ | ⟨Q, hQ, hT⟩
+  · exact charge_turn sq pi Om Q hQ hT h3 g3 h2 g2 hfs gs m a
+  · exact (charge_turn sq pi Om Q hQ hT g3 h3 g2 h2 gs hfs m a).symm
+
+/-- the hypotheses of `charge_rotate90_periodic` on `fQp` (the field `fQ` on the mesh periodic along `x`):
+the turn is accepted, and the result is periodic along its second axis -/
+example : T.FldInv fQp ∧ fQp.mesh.ndim = 2 ∧ fQp.nvdim = 3 ∧ (∀ i, (fQp.data.get i).length = 3) ∧
+    fQp.mesh.bc.toLower = fQp.mesh.bc ∧ Mesh.bcOk fQp.mesh.region.dims fQp.mesh.bc = true ∧ C05.BcTurns fQp 0 1 ∧
+    periodic fQp 0 = true ∧ periodic fQp 1 = false ∧
+    fQp.mesh.region.dim2index "x" = .ok 0 ∧ fQp.mesh.region.dim2index "y" = .ok 1 ∧
+    (∀ vs, fQp.vdims = some vs → vs.length = 3) ∧
+    (fQp.rDim "x").bind fQp.vdimIndex ≠ (fQp.rDim "y").bind fQp.vdimIndex ∧
+    (match T.rotate90F fQp "x" "y" 1 none false with
+      | .ok (_, g) => periodic g 0 == false && periodic g 1 == true | .error _ => false) = true := by
+  refine ⟨⟨mesh_inv_of_invB _ (by decide +kernel), rfl, rfl⟩, rfl, rfl, fun _ => rfl, by decide +kernel, by decide +kernel,
+    Or.inl ⟨by decide +kernel, by decide +kernel, by decide +kernel, by decide +kernel⟩, by decide +kernel, by decide +kernel,
+    by decide +kernel, by decide +kernel, ?_, by decide +kernel, by decide +kernel⟩
+  intro vs hvs
+  simp only [fQp, fQ] at hvs
+  injection hvs with hvs
+  rw [← hvs]; rfl
+
+/-! ## Berg–Lüscher integrality -/
+
+/-- DISCRETE STOKES THEOREM on the lattice (any abelian group): the circulations `h(i,j) + v(i+1,j) − h(i,j+1) − v(i,j)`
+of all squares of an `m × n` block add up to the circulation around the block — by induction over the rows
+and over the squares of a row. -/
+theorem lattice_stokes {G : Type} [AddCommGroup G] (h v : Nat → Nat → G) (m n : Nat) :
+    ∑ j ∈ Finset.range n, ∑ i ∈ Finset.range m, plaq h v i j
+      = ∑ i ∈ Finset.range m, h i 0 + ∑ j ∈ Finset.range n, v m j - ∑ i ∈ Finset.range m, h i n - ∑ j ∈ Finset.range n, v 0 j :=
+  plaq_block h v m n
+
+/-- THE LATTICE CHARGE IS THE MEAN OF THE TWO TRIANGULATIONS OF THE SHEET.  For a fully valid field whose
+outermost cells all hold the same vector, twice the lattice charge `Σ_cells q·c₀c₁` (leaf valued in any field of
+characteristic 0) is the plain sum of the four right triangles `(SW,SE,NW)`, `(SE,NE,SW)`, `(NE,NW,SE)`,
+`(NW,SW,NE)` of every lattice square: the weights `1/(area·count)` of `topological_charge_density` are `1/2` per
+triangle at inner cells, and at the rim every triangle contains the rim vector twice. -/
+theorem bl_charge_two_triangulations {K : Type} [Field K] [CharZero K] (Om : Tri → K) (o : Fld) (r : V3)
+    (hv : AllValid o) (hr : UniformRim o r) (hc0 : o.mesh.cellAt 0 ≠ 0) (hc1 : o.mesh.cellAt 1 ≠ 0) :
+    2 * ∑ i ∈ Finset.range (o.mesh.nAt 0), ∑ j ∈ Finset.range (o.mesh.nAt 1),
+        tcdBLAtK Om o i j * (((o.mesh.cellAt 0 * o.mesh.cellAt 1 : Rat)) : K)
+      = ∑ i ∈ Finset.range (o.mesh.nAt 0 - 1), ∑ j ∈ Finset.range (o.mesh.nAt 1 - 1),
+          (blAngleK Om (tNE o i j) + blAngleK Om (tNW o (i + 1) j) + blAngleK Om (tSW o (i + 1) (j + 1))
+            + blAngleK Om (tSE o i (j + 1))) :=
+  charge_as_squares Om o r hv hr hc0 hc1
+
+/-- THE EXACT HYPOTHESIS ON THE SOLID-ANGLE FUNCTION under which the model's
+`topological_charge(method="berg-luescher")` is "integral": the leaf `Ω` is, after a homomorphism `φ : ℚ → G`
+into an abelian group (for the real formula `ℝ → ℝ/ℤ`), the COBOUNDARY `θ(a,b) + θ(b,c) + θ(c,a)` of an
+antisymmetric link function `θ` on the four right triangles of every lattice square (`SquareCob`), and
+`θ(r,r) = 0` for the rim vector.  Then on a fully valid sheet with uniform rim `φ(2Q) = 0`, and `φ(Q) = 0` when
+the two triangulations of every square give the same angle. -/
+theorem bl_charge_coboundary {G : Type} [AddCommGroup G] (φ : Rat →+ G) (sq : Rat → Rat) (pi : Rat) (Om : Tri → Rat)
+    (θ : V3 → V3 → G) (f : Fld) (r : V3) (c : Rat) (hs : f.data.shape = [f.mesh.nAt 0, f.mesh.nAt 1])
+    (hv : AllValid (orientation sq f)) (hr : UniformRim (orientation sq f) r)
+    (hc0 : f.mesh.cellAt 0 ≠ 0) (hc1 : f.mesh.cellAt 1 ≠ 0)
+    (hanti : ∀ x y, θ y x = -θ x y) (hrr : θ r r = 0)
+    (hcob : ∀ i j, i + 1 < f.mesh.nAt 0 → j + 1 < f.mesh.nAt 1 → SquareCob φ Om θ (orientation sq f) i j)
+    (h : charge sq pi Om f .bergLuescher false = .ok c) :
+    φ (2 * c) = 0 ∧
+    ((∀ i j, i + 1 < f.mesh.nAt 0 → j + 1 < f.mesh.nAt 1 →
+      blAngle Om (tNE (orientation sq f) i j) + blAngle Om (tSW (orientation sq f) (i + 1) (j + 1))
+        = blAngle Om (tNW (orientation sq f) (i + 1) j) + blAngle Om (tSE (orientation sq f) i (j + 1))) → φ c = 0) :=
+  charge_bl_coboundary φ sq pi Om θ f r c hs hv hr hc0 hc1 hanti hrr hcob h
+
+/-- the hypotheses of `bl_charge_coboundary` on the skyrmion-like field `fSk` (4 × 4 cells of size 1 × 2) with
+the trivial leaf -/
+example : fSk.data.shape = [fSk.mesh.nAt 0, fSk.mesh.nAt 1] ∧ AllValid (orientation ratSqrt fSk) ∧
+    UniformRim (orientation ratSqrt fSk) ⟨0, 0, 1⟩ ∧ fSk.mesh.cellAt 0 ≠ 0 ∧ fSk.mesh.cellAt 1 ≠ 0 ∧
+    (∀ i j, SquareCob (AddMonoidHom.id Rat) (fun _ => 0) (fun _ _ => (0 : Rat)) (orientation ratSqrt fSk) i j) ∧
+    (match charge ratSqrt 3 (fun _ => 0) fSk .bergLuescher false with | .ok _ => true | .error _ => false) = true :=
+  ⟨rfl, fSk_closed.valid, fSk_closed.rim, fSk_closed.c0, fSk_closed.c1,
+    fun _ _ => by unfold SquareCob Cob blAngleK; simp, by decide +kernel⟩
+
+/-- THE REAL SOLID ANGLE IS SUCH A COBOUNDARY.  For unit vectors `a, b, c`, no two antipodal, not in the
+exceptional coplanar configuration (`GoodTri`): `2π·bergluescher_angle(a,b,c) ≡ θ(a,b) + θ(b,c) + θ(c,a) (mod 2π)`
+with the link angle `θ(a,b) = arg⟨a|b⟩` of the spinor overlap, because
+`⟨a|b⟩⟨b|c⟩⟨c|a⟩ = 2λ_aλ_bλ_c · (1 + a·b + b·c + c·a + i·a·(b×c))` with positive `λ`s; the link angle is
+antisymmetric and vanishes on `(r, r)`. -/
+theorem bl_angle_is_coboundary (a b c : V3) (h : GoodTri a b c) :
+    Cob turns omegaR linkAngle a b c ∧ (∀ x y, linkAngle y x = -linkAngle x y) ∧ linkAngle a a = 0 ∧
+    link a b * link b c * link c a = ((2 * lam a * lam b * lam c : ℝ) : ℂ) * nC (triOf a b c) ∧
+    0 < lam a ∧ 0 < lam b ∧ 0 < lam c :=
+  ⟨omegaR_cob a b c h, linkAngle_anti, linkAngle_self a h.1, link_triple a b c h.1 h.2.1 h.2.2.1,
+    lam_pos a h.1, lam_pos b h.2.1, lam_pos c h.2.2.1⟩
+
+/-- HALF-INTEGRALITY OF THE LATTICE CHARGE (real formula, no hypothesis on a leaf).  On a closed sheet — all
+cells valid, the outermost cells all equal to a unit vector, every cell of the orientation field a unit vector,
+no two neighbouring (edge or diagonal) vectors antipodal, no exceptional triangle — twice the Berg–Lüscher
+charge `Σ_cells q·c₀c₁` is an integer: `Q = (deg_A + deg_B)/2`, the mean of the degrees of the two
+triangulations.  All mesh sizes, all cell edges.  (That `2Q` can be odd is not an artefact of the proof: the real
+code returns `±1/2` on the 4 × 4 mesh whose four inner cells hold the corners of a regular tetrahedron.) -/
+theorem bl_charge_half_integer (sq : Rat → Rat) (f : Fld) (r : V3) (hs : ClosedSheet (orientation sq f) r) :
+    ∃ k : ℤ, 2 * chargeBLReal sq f = k :=
+  chargeBLReal_half_integer sq f r hs
+
+/-- INTEGRALITY OF THE LATTICE CHARGE (real formula).  On a closed sheet that is smooth — every lattice
+triangle covers less than a quarter of the sphere, `1 + a·b + b·c + c·a > 0` — the two triangulations of every
+square agree and the Berg–Lüscher charge is an integer. -/
+theorem bl_charge_integer (sq : Rat → Rat) (f : Fld) (r : V3) (hs : ClosedSheet (orientation sq f) r)
+    (hsm : SmoothSheet (orientation sq f)) : ∃ k : ℤ, chargeBLReal sq f = k :=
+  chargeBLReal_integer sq f r hs hsm
+
+/-- the skyrmion-like field `fSk` (4 × 4 cells of size 1 × 2, rim `(0,0,5)`, inner cells `(±2,±2,−1)`, normalised
+by `Field.orientation` with the model's square root) is a closed smooth sheet (the real code returns `−1.0`) -/
+example : ClosedSheet (orientation ratSqrt fSk) ⟨0, 0, 1⟩ ∧ SmoothSheet (orientation ratSqrt fSk) :=
+  ⟨fSk_closed, fSk_smooth⟩
 
 end DFV.C19
